@@ -3,6 +3,7 @@
   mapping of the remaining entries) of `Model.Isimip` can write.
 -/
 import IbicusModel.Lemmas.C10
+import IbicusModel.Lemmas.StatsQmap
 
 namespace Lemmas.C10
 open Model.Isimip Model.Stats Model.IsimipFreq Lemmas.Stats
@@ -249,5 +250,382 @@ theorem adjustBetween_spec (c : Cfg) (fam : IsiFamily) (o : Oracles) (Obt OFbt H
                     exact ppf_mid c fam hlaw.1 hlaw.2 floc fscale hfa OFbt fitOF hfitOF _ (hexpit hela' z).1 (hexpit hela' z).2
                 · exact absurd h (by simp)
           · exact fb _ (premap_length c Fns Fbt) (ok_triple h)
+
+/-! ### step 6: the assembled buffer -/
+
+theorem setBound_ok (xs r : List Rat) (m : List Bool) (b : ExtRat) (hm : m.length = xs.length)
+    (h : setBound xs m b = .ok r) :
+    ∃ q, r = Py.setWhere xs m q ∧ (m.any id = true → b = .fin q) := by
+  unfold setBound at h
+  split at h
+  · cases b with
+    | fin q =>
+      simp only [ExtRat.toRat, Except.map] at h
+      injection h with h
+      exact ⟨q, h.symm, fun _ => rfl⟩
+    | negInf => simp [ExtRat.toRat, Except.map] at h
+    | posInf => simp [ExtRat.toRat, Except.map] at h
+  · rename_i hany
+    injection h with h
+    refine ⟨0, ?_, fun h' => absurd h' hany⟩
+    rw [setWhere_of_not_any xs m 0 hm (by simpa using hany)]
+    exact h.symm
+
+theorem step6Full_good (c : Cfg) (fam : IsiFamily) (o : Oracles) (obs obsFut H F : List Rat) (r : Step6Out)
+    (hguard : 0 < (valuesBetween c obsFut).length)
+    (hfam : c.nonparametricQm = true ∨ (RangeLaw fam ∧ ParamOk c))
+    (hexpit : c.eventLikelihoodAdjustment = true → ∀ x, 0 < o.expit x ∧ o.expit x < 1)
+    (h : step6Full c fam o obs obsFut H F = .ok r) :
+    r.mappedSorted.length = F.length ∧ (∀ e ∈ r.mappedSorted, Good c e) ∧
+      r.result = takeIdx r.mappedSorted (rankOf F) := by
+  unfold step6Full at h
+  simp only [bind, Except.bind] at h
+  have hFs : (takeIdx F (argsort F)).length = F.length := by rw [takeIdx_length, argsort_length]
+  generalize takeIdx F (argsort F) = Fs at h hFs
+  generalize finalCounts _ _ _ = cnt at h
+  have hml : (lowerMask cnt.1 Fs.length).length = Fs.length := lowerMask_length _ _
+  have hmu : (upperMask cnt.2 Fs.length).length = Fs.length := upperMask_length _ _
+  generalize lowerMask cnt.1 Fs.length = mL at h hml
+  generalize upperMask cnt.2 Fs.length = mU at h hmu
+  cases h1 : setBound Fs mL c.lowerBound with
+  | error e => rw [h1] at h; exact absurd h (by simp)
+  | ok m1 =>
+    rw [h1] at h
+    dsimp only at h
+    obtain ⟨lo, rfl, hlo⟩ := setBound_ok Fs m1 mL c.lowerBound hml h1
+    have hm1 : (Py.setWhere Fs mL lo).length = Fs.length := setWhere_length Fs mL lo hml
+    cases h2 : setBound (Py.setWhere Fs mL lo) mU c.upperBound with
+    | error e => rw [h2] at h; exact absurd h (by simp)
+    | ok m2 =>
+      rw [h2] at h
+      dsimp only at h
+      obtain ⟨hi, rfl, hhi⟩ := setBound_ok _ m2 mU c.upperBound (by rw [hm1, hmu]) h2
+      have hm2 : (Py.setWhere (Py.setWhere Fs mL lo) mU hi).length = Fs.length := by
+        rw [setWhere_length _ mU hi (by rw [hm1, hmu]), hm1]
+      have hmN : (notMask mL mU).length = Fs.length := by rw [notMask_length mL mU (by rw [hml, hmu]), hml]
+      -- every member of the final buffer, for any right-hand side with enough values none beyond a threshold
+      have final : ∀ vs : List Rat, (notMask mL mU).count true ≤ vs.length → (∀ e ∈ vs, Mid c e) →
+          ∀ e ∈ fillWhere (Py.setWhere (Py.setWhere Fs mL lo) mU hi) (notMask mL mU) vs, Good c e := by
+        intro vs hc hvs e he
+        rcases fillWhere_mem _ _ vs (by rw [hmN, hm2]) hc he with he | he
+        · exact Or.inr (Or.inr (hvs e he))
+        · rcases bounds_where_not_middle lo hi Fs mL mU hml hmu he with ⟨rfl, ha⟩ | ⟨rfl, ha⟩
+          · exact Or.inl (hlo ha)
+          · exact Or.inr (Or.inl (hhi ha))
+      split at h
+      · split at h
+        · rename_i hany hpos
+          cases h3 : adjustBetween c fam o (valuesBetween c (sortQ obs)) (valuesBetween c (sortQ obsFut))
+              (valuesBetween c (sortQ H)) (Py.selectWhere (Py.setWhere (Py.setWhere Fs mL lo) mU hi) (notMask mL mU))
+              (valuesBetween c Fs) with
+          | error e => rw [h3] at h; exact absurd h (by simp)
+          | ok t =>
+            obtain ⟨v, br, pre⟩ := t
+            rw [h3] at h
+            simp only [pure, Except.pure] at h
+            injection h with h
+            subst h
+            dsimp only
+            have hne : valuesBetween c (sortQ obsFut) ≠ [] := by
+              intro he; rw [he] at hpos; simp at hpos
+            obtain ⟨hlen, hmid⟩ := adjustBetween_spec c fam o _ _ _ _ _ v br pre hne
+              (valuesBetween_between c _) hfam hexpit h3
+            rw [selectWhere_length _ _ (by rw [hmN, hm2])] at hlen
+            exact ⟨by rw [fillWhere_length, hm2, hFs], final v (by rw [hlen]) hmid, rfl⟩
+        · rename_i hany hpos
+          rw [valuesBetween_sortQ_length] at hpos
+          exact absurd hguard hpos
+      · rename_i hany
+        simp only [pure, Except.pure] at h
+        injection h with h
+        subst h
+        dsimp only
+        refine ⟨by rw [hm2, hFs], ?_, rfl⟩
+        have hc : (notMask mL mU).count true = 0 := by
+          rw [List.count_eq_zero]
+          intro hmem
+          apply hany
+          rw [List.any_eq_true]
+          exact ⟨true, hmem, rfl⟩
+        have := final [] (by rw [hc]; exact Nat.zero_le _) (by intro e he; simp at he)
+        rwa [fillWhere_nil] at this
+/-- **every value `step6` returns is a bound or a value not beyond a threshold** (guard: there are pseudo-future
+    observations between the thresholds — otherwise the code leaves the remaining entries unadjusted) -/
+theorem step6_good (c : Cfg) (fam : IsiFamily) (o : Oracles) (obs obsFut H F out : List Rat)
+    (hguard : 0 < (valuesBetween c obsFut).length)
+    (hfam : c.nonparametricQm = true ∨ (RangeLaw fam ∧ ParamOk c))
+    (hexpit : c.eventLikelihoodAdjustment = true → ∀ x, 0 < o.expit x ∧ o.expit x < 1)
+    (h : step6 c fam o obs obsFut H F = .ok out) : out.length = F.length ∧ ∀ e ∈ out, Good c e := by
+  unfold step6 at h
+  cases hr : step6Full c fam o obs obsFut H F with
+  | error e => rw [hr] at h; exact absurd h (by simp [Except.map])
+  | ok r =>
+    rw [hr] at h
+    simp only [Except.map] at h
+    injection h with h
+    obtain ⟨hlen, hgood, hres⟩ := step6Full_good c fam o obs obsFut H F r hguard hfam hexpit hr
+    rw [← h, hres]
+    refine ⟨by rw [takeIdx_length, rankOf_length], ?_⟩
+    intro e he
+    exact hgood e (takeIdx_mem _ _ (by rw [hlen]; exact rankOf_valid F) he)
+
+/-! ### the whole window (`_apply_on_window`, steps 3–7) for a variable without detrending -/
+
+/-- the pseudo-future observations of a window: `step5(step4(…))` (step 3 is the identity without detrending) -/
+def pseudoFuture (c : Cfg) (o : Oracles) (d : Draws) (obs H F : List Rat) : Except String (List Rat) :=
+  (step4 c d obs H F).bind (fun r4 => step5 c o r4.1 r4.2.1 r4.2.2)
+
+/-- the window has pseudo-future observations strictly between the thresholds (the part of `Wet` step 6 needs) -/
+def WetWindow (c : Cfg) (o : Oracles) (d : Draws) (obs H F : List Rat) : Prop :=
+  match pseudoFuture c o d obs H F with
+  | .ok oF => 0 < (valuesBetween c oF).length
+  | .error _ => True
+
+instance (c : Cfg) (o : Oracles) (d : Draws) (obs H F : List Rat) : Decidable (WetWindow c o d obs H F) := by
+  unfold WetWindow
+  split <;> exact inferInstance
+
+theorem applyOnWindow_good (c : Cfg) (fam : IsiFamily) (o : Oracles) (d : Draws) (obs H F out : List Rat)
+    (yO yH yF : List Int) (hd : c.detrending = false) (hwet : WetWindow c o d obs H F)
+    (hfam : c.nonparametricQm = true ∨ (RangeLaw fam ∧ ParamOk c))
+    (hexpit : c.eventLikelihoodAdjustment = true → ∀ x, 0 < o.expit x ∧ o.expit x < 1)
+    (h : applyOnWindow c fam o d obs H F yO yH yF = .ok out) : ∀ e ∈ out, Good c e := by
+  rw [Lemmas.IsimipModel.applyOnWindow_eq, Lemmas.IsimipModel.step3_of_not_detrending c o hd] at h
+  dsimp only at h
+  unfold WetWindow pseudoFuture at hwet
+  cases h4 : step4 c d obs H F with
+  | error e => rw [h4] at h; exact absurd h (by simp [Except.bind])
+  | ok r4 =>
+    rw [h4] at h hwet
+    simp only [Except.bind] at h hwet
+    cases h5 : step5 c o r4.1 r4.2.1 r4.2.2 with
+    | error e => rw [h5] at h; exact absurd h (by simp)
+    | ok oF =>
+      rw [h5] at h hwet
+      dsimp only at h hwet
+      cases h6 : step6 c fam o r4.1 oF r4.2.1 r4.2.2 with
+      | error e => rw [h6] at h; exact absurd h (by simp)
+      | ok r =>
+        rw [h6] at h
+        dsimp only at h
+        rw [Lemmas.IsimipModel.step7_of_not_detrending c hd] at h
+        injection h with h
+        subst h
+        exact (step6_good c fam o _ _ _ _ _ hwet hfam hexpit h6).2
+
+/-! ### the property's guard and a family that satisfies the range law -/
+
+/-- **`Wet`** (DESIGN §4 C10), for one window: at least two values strictly between the thresholds in `obs`, `cm_hist`,
+    `cm_future` and in the pseudo-future observations, and every input inside `[lb, ub]`.  Decidable.
+    (Step 6 itself only needs *one* pseudo-future observation between the thresholds: `Wet.pseudo`.) -/
+def Wet (c : Cfg) (obs H F obsFut : List Rat) : Prop :=
+  2 ≤ (valuesBetween c obs).length ∧ 2 ≤ (valuesBetween c H).length ∧ 2 ≤ (valuesBetween c F).length ∧
+  2 ≤ (valuesBetween c obsFut).length ∧ (∀ v ∈ obs ++ H ++ F, InBounds c v)
+
+instance (c : Cfg) (obs H F obsFut : List Rat) : Decidable (Wet c obs H F obsFut) := by
+  unfold Wet; exact inferInstance
+
+theorem Wet.pseudo {c : Cfg} {obs H F obsFut : List Rat} (h : Wet c obs H F obsFut) :
+    0 < (valuesBetween c obsFut).length := by
+  have := h.2.2.2.1; omega
+
+/-- a rational family that honours `floc` / `fscale` and has bounded support: the uniform distribution on
+    `[loc, loc + scale]` (`loc` = `floc` or the sample minimum, `scale` = `fscale` or `max − loc`; the fit fails on an
+    empty sample and when the scale is not positive).  Witness that `RangeLaw` is satisfiable. -/
+def uniformFam : IsiFamily where
+  fit := fun d floc fscale =>
+    if d.length = 0 then none
+    else if fscale.getD (maxQ d - floc.getD (minQ d)) ≤ 0 then none
+    else some (floc.getD (minQ d), fscale.getD (maxQ d - floc.getD (minQ d)))
+  cdf := fun p x => (x - p.1) / p.2
+  ppf := fun p q => p.1 + p.2 * q
+
+theorem uniformFam_fit_some (d : List Rat) (floc : Rat) (fscale : Option Rat) (p : Rat × Rat)
+    (h : uniformFam.fit d (some floc) fscale = some p) : p.1 = floc ∧ 0 < p.2 ∧ (∀ s, fscale = some s → p.2 = s) := by
+  simp only [uniformFam, Option.getD_some] at h
+  split at h
+  · exact absurd h (by simp)
+  · split at h
+    · exact absurd h (by simp)
+    · rename_i hs
+      injection h with h
+      subst h
+      refine ⟨rfl, not_le.mp hs, ?_⟩
+      intro s hs'; subst hs'; rfl
+
+theorem uniformFam_rangeLaw : RangeLaw uniformFam where
+  lower := by
+    intro d floc fscale p q hfit h0 h1
+    obtain ⟨e1, e2, -⟩ := uniformFam_fit_some d floc fscale p hfit
+    show floc ≤ p.1 + p.2 * q
+    rw [e1]
+    have := mul_pos e2 h0
+    linarith
+  upper := by
+    intro d floc fscale p q hfit h0 h1
+    obtain ⟨e1, e2, e3⟩ := uniformFam_fit_some d floc (some fscale) p hfit
+    show p.1 + p.2 * q ≤ floc + fscale
+    have e4 := e3 fscale rfl
+    rw [e1, e4]
+    rw [e4] at e2
+    nlinarith
+
+/-! ### totality of step 6 (non-vacuity of the guarded statements: under the guards there *is* a run) -/
+
+theorem rhe_zero (b : Int) (hb : 0 < b) : rhe 0 b = 0 := by
+  unfold rhe
+  simp [hb]
+
+theorem rhe_mul_self (a n : Int) (ha : 0 < a) : rhe (a * n) a = n := by
+  unfold rhe
+  rw [Int.mul_emod_right, Int.mul_ediv_cancel_left n (ne_of_gt ha)]
+  simp [ha]
+
+theorem finalCounts_snd_zero (a n : Int) (hn : 0 ≤ n) : (finalCounts a 0 n).2 = 0 := by
+  unfold finalCounts
+  split_ifs with h
+  · unfold scaleCounts
+    have ha : 0 < a := by omega
+    simp only [add_zero]
+    rw [rhe_mul_self a n ha]; omega
+  · rfl
+
+theorem finalCounts_fst_zero (b n : Int) (hn : 0 ≤ n) : (finalCounts 0 b n).1 = 0 := by
+  unfold finalCounts
+  split_ifs with h
+  · unfold scaleCounts
+    simp only [zero_mul, zero_add]
+    exact rhe_zero b (by omega)
+  · rfl
+
+theorem lowerMask_zero (n : Nat) : (lowerMask 0 n).any id = false := by
+  simp [lowerMask, pySliceIdx]
+
+theorem upperMask_zero (n : Nat) : (upperMask 0 n).any id = false := by
+  have : pySliceIdx (n : Int) n = n := by
+    unfold pySliceIdx
+    simp
+  simp [upperMask, this]
+
+theorem setBound_total (xs : List Rat) (m : List Bool) (b : ExtRat) (h : m.any id = true → ∃ q, b = .fin q) :
+    ∃ r, setBound xs m b = .ok r := by
+  unfold setBound
+  split_ifs with hm
+  · obtain ⟨q, rfl⟩ := h hm
+    exact ⟨_, rfl⟩
+  · exact ⟨_, rfl⟩
+
+/-- thresholds that step 6 can turn into `floc` / `fscale`: finite or absent (not `+inf` below, not `-inf` above) -/
+def ThrFinite (c : Cfg) : Prop := c.lowerThreshold ≠ .posInf ∧ c.upperThreshold ≠ .negInf
+
+instance (c : Cfg) : Decidable (ThrFinite c) := inferInstanceAs (Decidable (_ ∧ _))
+
+theorem fixedArgs_total (c : Cfg) (h : ThrFinite c) : ∃ fa, fixedArgs c = .ok fa := by
+  obtain ⟨hl, hu⟩ := h
+  unfold fixedArgs
+  cases hl' : c.lowerThreshold <;> cases hu' : c.upperThreshold <;>
+    first
+    | exact absurd hl' hl
+    | exact absurd hu' hu
+    | simp [Cfg.hasLowerThreshold, Cfg.hasUpperThreshold, hl', hu', ExtRat.gtNegInf, ExtRat.ltPosInf, ExtRat.toRat, bind,
+        Except.bind, Except.map, pure, Except.pure]
+
+theorem adjustBetween_total (c : Cfg) (fam : IsiFamily) (o : Oracles) (Obt OFbt Hbt Fns Fbt : List Rat)
+    (hthr : ThrFinite c) (hela : c.eventLikelihoodAdjustment = false) :
+    ∃ t, adjustBetween c fam o Obt OFbt Hbt Fns Fbt = .ok t := by
+  obtain ⟨fa, hfa⟩ := fixedArgs_total c hthr
+  obtain ⟨floc, fscale⟩ := fa
+  unfold adjustBetween
+  split
+  · exact ⟨_, rfl⟩
+  · dsimp only
+    split
+    · exact ⟨_, rfl⟩
+    · split
+      · exact ⟨_, rfl⟩
+      · rw [hfa]
+        simp only [bind, Except.bind]
+        split
+        · split
+          · exact ⟨_, rfl⟩
+          · simp only [hela, Bool.not_false, if_true]
+            exact ⟨_, rfl⟩
+        · exact ⟨_, rfl⟩
+
+/-- **step 6 returns** for every input when each bound that can be written is finite (a side without threshold never
+    writes its bound), the thresholds are finite or absent, and the event likelihood adjustment is off -/
+theorem step6_total (c : Cfg) (fam : IsiFamily) (o : Oracles) (obs obsFut H F : List Rat)
+    (hlb : c.hasLowerThreshold = false ∨ ∃ q, c.lowerBound = .fin q)
+    (hub : c.hasUpperThreshold = false ∨ ∃ q, c.upperBound = .fin q)
+    (hthr : ThrFinite c) (hela : c.eventLikelihoodAdjustment = false) :
+    ∃ out, step6 c fam o obs obsFut H F = .ok out := by
+  unfold step6 step6Full
+  simp only [bind, Except.bind]
+  generalize takeIdx F (argsort F) = Fs
+  have hL : (lowerMask (finalCounts
+      (if c.hasLowerThreshold = true then
+        nrToBound c.biasCorrectFrequencies (maskBeyondLower c (sortQ obs)) (maskBeyondLower c (sortQ H)) (maskBeyondLower c Fs)
+      else 0)
+      (if c.hasUpperThreshold = true then
+        nrToBound c.biasCorrectFrequencies (maskBeyondUpper c (sortQ obs)) (maskBeyondUpper c (sortQ H)) (maskBeyondUpper c Fs)
+      else 0) (Fs.length : Int)).1 Fs.length).any id = true → ∃ q, c.lowerBound = .fin q := by
+    intro hany
+    rcases hlb with h | h
+    · rw [h] at hany
+      simp only [Bool.false_eq_true, if_false] at hany
+      rw [finalCounts_fst_zero _ _ (by omega), lowerMask_zero] at hany
+      exact absurd hany (by simp)
+    · exact h
+  have hU : (upperMask (finalCounts
+      (if c.hasLowerThreshold = true then
+        nrToBound c.biasCorrectFrequencies (maskBeyondLower c (sortQ obs)) (maskBeyondLower c (sortQ H)) (maskBeyondLower c Fs)
+      else 0)
+      (if c.hasUpperThreshold = true then
+        nrToBound c.biasCorrectFrequencies (maskBeyondUpper c (sortQ obs)) (maskBeyondUpper c (sortQ H)) (maskBeyondUpper c Fs)
+      else 0) (Fs.length : Int)).2 Fs.length).any id = true → ∃ q, c.upperBound = .fin q := by
+    intro hany
+    rcases hub with h | h
+    · rw [h] at hany
+      simp only [Bool.false_eq_true, if_false] at hany
+      rw [finalCounts_snd_zero _ _ (by omega), upperMask_zero] at hany
+      exact absurd hany (by simp)
+    · exact h
+  generalize finalCounts _ _ _ = cnt at hL hU ⊢
+  generalize lowerMask cnt.1 Fs.length = mL at hL ⊢
+  generalize upperMask cnt.2 Fs.length = mU at hU ⊢
+  obtain ⟨m1, h1⟩ := setBound_total Fs mL c.lowerBound hL
+  rw [h1]
+  dsimp only
+  obtain ⟨m2, h2⟩ := setBound_total m1 mU c.upperBound hU
+  rw [h2]
+  dsimp only
+  split_ifs
+  · obtain ⟨t, ht⟩ := adjustBetween_total c fam o (valuesBetween c (sortQ obs)) (valuesBetween c (sortQ obsFut))
+      (valuesBetween c (sortQ H)) (Py.selectWhere m2 (notMask mL mU)) (valuesBetween c Fs) hthr hela
+    rw [ht]
+    exact ⟨_, rfl⟩
+  · exact ⟨_, rfl⟩
+  · exact ⟨_, rfl⟩
+
+/-! ### evaluation helpers for concrete examples: `List.mergeSort` is defined by well-founded recursion and does not
+    reduce in the kernel; on sorted input every sort of the model is the identity -/
+
+theorem argsort_of_sorted {l : List Rat} (h : l.Pairwise (· ≤ ·)) : argsort l = List.range l.length := by
+  unfold argsort
+  have h1 : ((l.zip (List.range l.length)).map Prod.fst).Pairwise (· ≤ ·) := by
+    rw [List.map_fst_zip (by simp)]; exact h
+  rw [List.pairwise_map] at h1
+  have hp : (l.zip (List.range l.length)).Pairwise (fun a b => (decide (a.1 ≤ b.1)) = true) :=
+    h1.imp (fun h => by simpa using h)
+  rw [List.mergeSort_of_pairwise hp, List.map_snd_zip (by simp)]
+
+theorem rankOf_of_sorted {l : List Rat} (h : l.Pairwise (· ≤ ·)) : rankOf l = List.range l.length := by
+  unfold rankOf
+  rw [argsort_of_sorted h, argsort_of_sorted (range_cast_sorted _)]
+  simp
+
+theorem takeIdx_range (l : List Rat) : takeIdx l (List.range l.length) = l := by
+  unfold takeIdx
+  exact range_map_getD l
 
 end Lemmas.C10
